@@ -140,6 +140,7 @@ class Run(Stats):
         self.extra = {}
         self.exhaustive = False
         self.level = "exploration"
+        self.want_sig = None
 
     @property
     def quick(self):
@@ -154,6 +155,7 @@ class Run(Stats):
         for e in self.entries:
             sig = norm_sig(e["sig"])
             status = e.get("status", "open")
+            self.want_sig = sig      # a case may fail in several ways: replay() may use this to pick the listed one
             try:
                 r = mod.replay(self, e["example"])
             except Inconclusive:
@@ -176,6 +178,7 @@ class Run(Stats):
                 if fn.endswith(".json"):
                     with open(os.path.join(d, fn)) as f:
                         rp = json.load(f)
+                    self.want_sig = None
                     r = mod.replay(self, rp["case"])
                     self.klass("regression_inputs")
                     if r is not None:
@@ -273,6 +276,7 @@ class Run(Stats):
     def do_replay(self, mod):
         with open(self.replay_path) as f:
             rp = json.load(f)
+        self.want_sig = norm_sig(rp["sig"]) if rp.get("sig") else None
         r = mod.replay(self, rp["case"])
         if r is None:
             print("replay: property held on this case")
